@@ -2,6 +2,7 @@
 //! properties: C04
 //! note: authenticity of an inbound payment: inbound_payment::verify accepts only if the payment secret's IV is the HMAC, under the node's own key for that method, of the (still encrypted) payment info, the payment hash and the metadata - or, for LDK-generated hashes, if the HMAC-derived preimage hashes to the payment hash (HMAC-SHA256 and SHA256 uninterpreted)
 //! trusted: HmacEngine is a stub that records key and the concatenation of its inputs in ghost fields; Hmac::from_engine(..).to_byte_array() is the uninterpreted hmac_sha256(key, data); Sha256::hash(..).to_byte_array() is the external_body wrapper sha256 (R8); fixed_time_eq is extracted-by-contract (equal lengths required, result = equality); `(x.len() as u64).to_le_bytes()` is the external_body wrapper le64 (R8); `&h.split_at_mut(IV_LEN).0` is the external_body wrapper first_iv_len (first 16 bytes, R8); ExpandedKey is extracted; PaymentHash / PaymentPreimage newtypes
+//! trusted: R15 (deep slices): create / create_from_hash / create_for_spontaneous_payment: the statements from the construction of the HMAC engine to the end of each function, verbatim (construct_payment_secret external_body over the uninterpreted secret_of; `iv.copy_from_slice(&h[..IV_LEN])` is the external_body wrapper copy_prefix, R8); building the info bytes (Kani h_info_bytes) and encrypting the metadata before these statements are dropped and not claimed
 //! trusted: R15: verify: the unit extracts the `match payment_type_res { .. }` statement that authenticates the secret (all five arms) verbatim as a function of the decrypted (iv_bytes, info_bytes); inside its arms the two blocks that decrypt the payment metadata after a successful check are dropped (R15, stated) `payment_metadata` is a shared reference to the bytes (`.as_deref()` / `.map(Vec::as_slice)` dropped, R5) and the full-range slice `&info_bytes[..]` of an array is written `&info_bytes` (R8); decrypting the secret, the amount / expiry tests (unit u04b) and the method-bits decoding (Kani harness h_info_bytes) are outside this unit
 use vstd::prelude::*;
 verus! {
@@ -121,6 +122,87 @@ pub open spec fn fed1(a: Seq<u8>) -> Seq<u8> { Seq::<u8>::empty() + a }
     log_trace!(logger, "Failing async payment HTLC with sender-generated payment_hash {}: unexpected payment_secret", &payment_hash); return Err(());
 //@with
     
+//@end
+
+// ---- the other direction: the secrets the node hands out are built with exactly the HMACs verify() later checks (three R15 slices: the HMAC tails of create_from_hash, create_for_spontaneous_payment and create) ----
+pub struct PaymentSecret(pub [u8; 32]);
+pub uninterp spec fn secret_of(iv: [u8; 16], info: [u8; 16], info_key: [u8; 32]) -> PaymentSecret;
+#[verifier::external_body] pub fn construct_payment_secret(iv_bytes: &[u8; IV_LEN], info_bytes: &[u8; INFO_LEN], info_key: &[u8; 32]) -> (r: PaymentSecret) ensures r == secret_of(*iv_bytes, *info_bytes, *info_key) { unimplemented!() }
+#[verifier::external_body] pub fn copy_prefix(dst: &mut [u8; 16], src: &[u8; 32]) ensures final(dst)@ == src@.take(16) { unimplemented!() }
+
+//@extract lightning/src/ln/inbound_payment.rs :: fn create_from_hash
+//@slice R15
+    let mut hmac = HmacEngine::<Sha256>::new(&keys.user_pmt_hash_key); $tail:any }
+//@with
+    fn create_from_hash_hmac_tail(keys: &ExpandedKey, info_bytes: [u8; INFO_LEN], payment_hash: PaymentHash, payment_metadata: Option<Vec<u8>>) -> Result<(PaymentSecret, Option<Vec<u8>>), ()> {
+        let mut hmac = HmacEngine::new(&keys.user_pmt_hash_key);
+        $tail
+    }
+//@rw R8 ?
+    &(metadata.len() as u64).to_le_bytes()
+//@with
+    le64(metadata.len() as u64).as_slice()
+//@rw R8
+    iv_bytes.copy_from_slice(&hmac_bytes[..IV_LEN]);
+//@with
+    copy_prefix(&mut iv_bytes, &hmac_bytes);
+//@rw R5
+    hmac.input(metadata);
+//@with
+    hmac.input(metadata.as_slice());
+//@ret r
+//@ensures P C04 the-secret-handed-out-for-a-user-supplied-hash-carries-as-its-iv-the-very-hmac-that-verify-recomputes
+    r is Ok && r->Ok_0.1 == payment_metadata,
+    exists|iv: [u8; 16]| r->Ok_0.0 == secret_of(iv, info_bytes, keys.info_key)
+        && iv@ == hmac_sha256(keys.user_pmt_hash_key, with_meta(fed2(info_bytes@, payment_hash.0@), if payment_metadata is Some { Some(payment_metadata->Some_0@) } else { None }))@.take(16),
+//@mutant payment_hash_left_out_when_creating
+    hmac.input(&info_bytes); hmac.input(&payment_hash.0);
+//@with
+    hmac.input(&info_bytes);
+//@end
+
+//@extract lightning/src/ln/inbound_payment.rs :: fn create_for_spontaneous_payment
+//@slice R15
+    let mut hmac = HmacEngine::<Sha256>::new(&keys.spontaneous_pmt_key); $tail:any }
+//@with
+    fn create_spontaneous_hmac_tail(keys: &ExpandedKey, info_bytes: [u8; INFO_LEN]) -> Result<PaymentSecret, ()> {
+        let mut hmac = HmacEngine::new(&keys.spontaneous_pmt_key);
+        $tail
+    }
+//@rw R8
+    iv_bytes.copy_from_slice(&hmac_bytes[..IV_LEN]);
+//@with
+    copy_prefix(&mut iv_bytes, &hmac_bytes);
+//@ret r
+//@ensures P C04 the-secret-handed-out-for-a-spontaneous-payment-carries-the-hmac-that-verify-recomputes
+    r is Ok,
+    exists|iv: [u8; 16]| r->Ok_0 == secret_of(iv, info_bytes, keys.info_key) && iv@ == hmac_sha256(keys.spontaneous_pmt_key, fed1(info_bytes@))@.take(16),
+//@end
+
+//@extract lightning/src/ln/inbound_payment.rs :: fn create
+//@slice R15
+    let mut hmac = HmacEngine::<Sha256>::new(&keys.ldk_pmt_hash_key); $tail:any }
+//@with
+    fn create_hmac_tail(keys: &ExpandedKey, iv_bytes: [u8; IV_LEN], info_bytes: [u8; INFO_LEN], payment_metadata: Option<Vec<u8>>) -> Result<(PaymentHash, PaymentSecret, Option<Vec<u8>>), ()> {
+        let mut hmac = HmacEngine::new(&keys.ldk_pmt_hash_key);
+        $tail
+    }
+//@rw R8 ?
+    &(metadata.len() as u64).to_le_bytes()
+//@with
+    le64(metadata.len() as u64).as_slice()
+//@rw R5
+    hmac.input(metadata);
+//@with
+    hmac.input(metadata.as_slice());
+//@rw R8
+    Sha256::hash(&payment_preimage_bytes).to_byte_array()
+//@with
+    sha256(&payment_preimage_bytes)
+//@ret r
+//@ensures P C04 the-payment-hash-handed-out-by-create-is-the-hash-of-the-preimage-verify-derives-from-the-secret
+    r is Ok && r->Ok_0.1 == secret_of(iv_bytes, info_bytes, keys.info_key),
+    r->Ok_0.0.0 == sha256_spec(hmac_sha256(keys.ldk_pmt_hash_key, with_meta(fed2(iv_bytes@, info_bytes@), if payment_metadata is Some { Some(payment_metadata->Some_0@) } else { None }))),
 //@end
 }
 fn main() {}
